@@ -3,7 +3,7 @@
 # usage: mutant_matrix.sh [ids...]   -> writes /verif/seeded/MATRIX.txt lines "<seed> <prop> CAUGHT|MISSED <first line>"
 cd /verif
 OUT=/verif/seeded/MATRIX.txt
-IDS=${@:-$(ls seeded | grep -E '^C[0-9]+[abcd]$')}
+IDS=${@:-$(ls seeded | grep -E '^C[0-9]+[a-f]$')}
 one() {
   id=$1; prop=${id:0:3}
   [ -f /verif/harness/props/$(echo $prop | tr A-Z a-z).py ] || { echo "$id $prop NOCHECK"; return; }
@@ -13,5 +13,5 @@ one() {
   else echo "$id $prop MISSED $(echo "$r" | tail -1 | cut -c1-120)"; fi
 }
 export -f one
-printf '%s\n' $IDS | xargs -P4 -I{} bash -c 'one {}' | sort > $OUT.tmp
+printf '%s\n' $IDS | xargs -P6 -I{} bash -c 'one {}' | sort > $OUT.tmp
 mv $OUT.tmp $OUT; cat $OUT
